@@ -106,7 +106,7 @@ def ref_dtypes(cmds, table):
     dt = {}
     for c in cmds:
         if c["cmd"] == "EEMSRead":
-            dt[c["name"]] = "int" if cols[c["args"]["InFieldName"]]["type"] == "Integer" else "float"
+            dt[c["name"]] = "int" if c["args"].get("DataType") == "Integer" else "float"
         elif c["cmd"] in ("Copy", "Sum", "Multiply", "Minimum", "Maximum", "AMinusB"):
             refs = eems.refs_of(c)
             dt[c["name"]] = "int" if refs and all(dt.get(r) == "int" for r in refs) else "float"
@@ -376,6 +376,9 @@ def execute(sc):
         res.probe("integer column")
     if any(c["missing"] is not None and c["missing"] in c["values"] for c in model["table"]["columns"]):
         res.probe("missing cells in the table")
+    reads = [(c["args"].get("InFieldName")) for c in cmds if c["cmd"] == "EEMSRead"]
+    if len(reads) != len(set(reads)):
+        res.probe("same column read more than once with different options")
     depth = {}
     for c in cmds:
         depth[c["name"]] = 1 + max([depth.get(r, 0) for r in eems.refs_of(c)] or [0])
